@@ -378,11 +378,13 @@ _WD = [None]
 
 
 def _workdir():
-    if _WD[0] is None:
-        _WD[0] = tempfile.mkdtemp(prefix="vmc_xsd_")
+    """one scratch directory per process (tasks are split in the parent before the pool forks, so the pid is part of the key)"""
+    import os
+    if _WD[0] is None or _WD[0][0] != os.getpid():
+        _WD[0] = (os.getpid(), tempfile.mkdtemp(prefix="vmc_xsd_"))
         import atexit
-        atexit.register(shutil.rmtree, _WD[0], True)
-    return _WD[0]
+        atexit.register(shutil.rmtree, _WD[0][1], True)
+    return _WD[0][1]
 
 
 def _task(t):
